@@ -140,6 +140,34 @@ func disassembleModel(p *core.Program, vm *eng.VMModel) (map[string]disasmCase, 
 				}
 				return true
 			})
+			// … or hands the decoding to a function of the package and stores the offset it
+			// returns back into the instruction pointer (`a, ip = program.operand(ip)`)
+			if !adv {
+				ast.Inspect(fl.Body, func(m ast.Node) bool {
+					a, ok := m.(*ast.AssignStmt)
+					if !ok || len(a.Rhs) != 1 {
+						return true
+					}
+					call, ok := eng.Unparen(a.Rhs[0]).(*ast.CallExpr)
+					if !ok {
+						return true
+					}
+					fn := eng.CalleeOf(info, call)
+					if fn == nil || fn.Pkg() != p.Pkg("vm").Types {
+						return true
+					}
+					for _, l := range a.Lhs {
+						if lid, ok := l.(*ast.Ident); ok && lid.Name == "ip" {
+							for _, arg := range call.Args {
+								if aid, ok := eng.Unparen(arg).(*ast.Ident); ok && info.Uses[aid] == info.Uses[lid] {
+									adv = true
+								}
+							}
+						}
+					}
+					return true
+				})
+			}
 			if adv {
 				readArg = obj
 				return true
